@@ -8,7 +8,11 @@ WBITS = {"gzip": zlib.MAX_WBITS | 16, "zlib": zlib.MAX_WBITS, "deflate": -zlib.M
 def compress(body: bytes, how):
     if not how:
         return body
-    c = zlib.compressobj(6, zlib.DEFLATED, WBITS[how])
+    # a peer may use any window size (9..15) and any level (0 = stored blocks .. 9); both decided by the body
+    k = zlib.crc32(body)
+    w = 9 + k % 7
+    wbits = {"gzip": 16 + w, "zlib": w, "deflate": -w}[how]
+    c = zlib.compressobj((6, 9, 1, 0, 6)[(k >> 8) % 5], zlib.DEFLATED, wbits)
     return c.compress(body) + c.flush()
 
 
